@@ -484,8 +484,9 @@ impl Prop for Registry {
                     let fam = FAMILY_NAMES[*f as usize % FAMILY_NAMES.len()];
                     let mut items: Vec<&ItemSpec> = m.items.iter().filter(|x| FAMILY_NAMES[x.family as usize % FAMILY_NAMES.len()] == fam).collect();
                     items.sort_by_key(|x| x.index);
-                    // contiguous chain starting at 1
-                    let chain: Vec<&ItemSpec> = items.iter().enumerate().take_while(|(k, x)| x.index as usize == k + 1).map(|(_, x)| *x).collect();
+                    // contiguous chain starting at the family's lowest index (0, 1 or higher)
+                    let base_index = items.first().map_or(1, |x| x.index as usize);
+                    let chain: Vec<&ItemSpec> = items.iter().enumerate().take_while(|(k, x)| x.index as usize == k + base_index).map(|(_, x)| *x).collect();
                     if chain.len() < 2 {
                         continue;
                     }
@@ -559,7 +560,7 @@ pub fn op_strategy() -> impl Strategy<Value = Op> {
         5 => (prop_oneof![6 => Just(0u8), 2 => Just(1u8), 1 => Just(2u8)], rule_strategy()).prop_map(|(l, r)| Op::AddRule(l, r)),
         3 => (prop_oneof![6 => Just(0u8), 2 => Just(1u8), 1 => Just(2u8)], 0u8..4).prop_map(|(l, n)| Op::DeleteRule(l, n)),
         2 => (0u8..3).prop_map(Op::AddType),
-        4 => (0u8..3, 1u8..=5, 0u8..10, 2u8..=12, 2u8..=12).prop_map(|(family, index, unit, down, up)| Op::AddItem(ItemSpec { family, index, unit, down, up })),
+        4 => (0u8..3, 0u8..=5, 0u8..10, 2u8..=12, 2u8..=12).prop_map(|(family, index, unit, down, up)| Op::AddItem(ItemSpec { family, index, unit, down, up })),
         6 => (any::<u8>(), 0u32..40, 0u32..40).prop_map(|(i, n, k)| Op::Probe(i, n, k)),
         3 => (0u8..3, any::<u8>(), any::<u8>(), 1u32..1000).prop_map(|(f, i, j, a)| Op::ConvertProbe(f, i, j, a)),
     ]
@@ -592,16 +593,16 @@ fn rule_block() -> impl Strategy<Value = Vec<Op>> {
 /// a family scenario: the family (sometimes registered twice), items 1..m in order with a duplicate
 /// index thrown in, conversions in both directions
 fn family_block() -> impl Strategy<Value = Vec<Op>> {
-    (0u8..3, any::<bool>(), 2usize..=5, prop::collection::vec((2u8..=12, 2u8..=12), 5), 0u8..10, prop::option::of((1u8..=5, 0u8..10)), prop::collection::vec((any::<u8>(), any::<u8>(), 1u32..1000), 1..=4)).prop_map(|(family, twice, m, factors, unit0, dup, convs)| {
+    (0u8..3, any::<bool>(), 2usize..=5, prop::collection::vec((2u8..=12, 2u8..=12), 5), 0u8..10, prop::option::of((1u8..=5, 0u8..10)), prop::collection::vec((any::<u8>(), any::<u8>(), 1u32..1000), 1..=4), prop_oneof![3 => Just(1u8), 2 => Just(0u8), 1 => Just(3u8)]).prop_map(|(family, twice, m, factors, unit0, dup, convs, base)| {
         let mut ops = vec![Op::AddType(family)];
         if twice {
             ops.push(Op::AddType(family));
         }
         for i in 0..m {
-            ops.push(Op::AddItem(ItemSpec { family, index: i as u8 + 1, unit: (unit0 + i as u8) % 10, down: factors[i].0, up: factors[i].1 }));
+            ops.push(Op::AddItem(ItemSpec { family, index: i as u8 + base, unit: (unit0 + i as u8) % 10, down: factors[i].0, up: factors[i].1 }));
             if let Some((di, du)) = dup {
                 if di as usize == i + 1 {
-                    ops.push(Op::AddItem(ItemSpec { family, index: di, unit: (unit0 + 5 + du) % 10, down: 9, up: 9 }));
+                    ops.push(Op::AddItem(ItemSpec { family, index: i as u8 + base, unit: (unit0 + 5 + du) % 10, down: 9, up: 9 }));
                 }
             }
         }
@@ -652,7 +653,7 @@ pub fn self_check() {
 
 pub fn run(ctx: &Ctx) {
     self_check();
-    ctx.rule("call histories of 1-14 operations on one calculator: add_rule(en|tr|unknown language, 1-3 patterns of fresh keywords and typed fields {NUMBER:n} {PERCENT:n} {MONEY:n} {TEXT:n} {NUMBER:k}, behaviour computed from the NAMED fields: decline always / decline when n is odd / Number(c+2n+3k) / Money / Percent / Duration), delete_rule (existing, never registered, already deleted, unknown language; names from a pool of four so that duplicates occur), add_dynamic_type, add_dynamic_type_item (fresh / duplicate index / unknown family, integer link factors), probe evaluations of registered and deleted patterns, family conversions; oracle: return values against a model (add_rule false iff unknown language, delete_rule true iff a live rule of that name exists, removing the first; add_dynamic_type false iff the name exists; add_dynamic_type_item false iff the family is unknown or the index taken); effect: a line matched by exactly one live rule evaluates to what its behaviour computes, a declining rule or no rule leaves the line as on a plain calculator; conversions = product of the declared link factors; and after every deletion and at the end: a panel of probe lines (every registered and deleted pattern, six built-in sentences, every pair of family items, cross-family lines) evaluates identically on the long-lived calculator and on a fresh one on which only the surviving registrations were replayed in order; non-trivial = a deletion followed by a probe of the deleted rule's pattern, two rules of equal name, or a rejected duplicate followed by a conversion");
+    ctx.rule("call histories of 1-14 operations on one calculator: add_rule(en|tr|unknown language, 1-3 patterns of fresh keywords and typed fields {NUMBER:n} {PERCENT:n} {MONEY:n} {TEXT:n} {NUMBER:k}, behaviour computed from the NAMED fields: decline always / decline when n is odd / Number(c+2n+3k) / Money / Percent / Duration), delete_rule (existing, never registered, already deleted, unknown language; names from a pool of four so that duplicates occur), add_dynamic_type, add_dynamic_type_item (fresh / duplicate index / unknown family, integer link factors; families whose lowest index is 0, 1 or 3), probe evaluations of registered and deleted patterns, family conversions; oracle: return values against a model (add_rule false iff unknown language, delete_rule true iff a live rule of that name exists, removing the first; add_dynamic_type false iff the name exists; add_dynamic_type_item false iff the family is unknown or the index taken); effect: a line matched by exactly one live rule evaluates to what its behaviour computes, a declining rule or no rule leaves the line as on a plain calculator; conversions = product of the declared link factors; and after every deletion and at the end: a panel of probe lines (every registered and deleted pattern, six built-in sentences, every pair of family items, cross-family lines) evaluates identically on the long-lived calculator and on a fresh one on which only the surviving registrations were replayed in order; non-trivial = a deletion followed by a probe of the deleted rule's pattern, two rules of equal name, or a rejected duplicate followed by a conversion");
     ctx.assume("patterns consist of a fresh keyword plus typed fields (>= 2 tokens, the result cannot match again); unit items have fresh names, contiguous indices are needed for a conversion to be asserted");
     ctx.run_table(&Registry, "regressions", regressions(), false);
     let max = match ctx.tier {
